@@ -123,6 +123,8 @@ type c04hIngress struct {
 	req       uint64
 	key       *crypto.SessionKey // ingress end, from the LAST ack on this stream
 	raw       [32]byte
+	held      [][32]byte // every key this stream's ingress end has held (earlier handshakes included)
+	closed    bool
 	shellMeta bool
 }
 
@@ -262,7 +264,11 @@ func (s *c04hState) open(stream, req uint64, mode string) string {
 	if in == nil || mode == "fresh" {
 		priv, pub, err := crypto.GenerateEphemeralKeypair()
 		must(err)
-		in = &c04hIngress{priv: priv, pub: pub}
+		var held [][32]byte
+		if in != nil {
+			held = in.held
+		}
+		in = &c04hIngress{priv: priv, pub: pub, held: held}
 		s.ing[stream] = in
 	}
 	in.req = req
@@ -304,6 +310,8 @@ func (s *c04hState) open(stream, req uint64, mode string) string {
 	}
 	in.key = crypto.DeriveSessionKey(secret, req, in.pub, ack.pub, true)
 	in.raw = in.key.Key()
+	in.held = append(in.held, in.raw)
+	in.closed = false
 	in.shellMeta = false
 	return "ack"
 }
@@ -315,7 +323,7 @@ func (s *c04hState) ping(stream uint64, payload []byte) string {
 	n0 := len(s.w.data[stream])
 	faulty := s.w.failK > 0
 	s.w.mu.Unlock()
-	if in != nil && in.key != nil {
+	if in != nil && in.key != nil && !in.closed {
 		switch s.kind {
 		case "tcp", "fwd":
 			ct, err := in.key.Encrypt(payload)
@@ -343,11 +351,11 @@ func (s *c04hState) ping(stream uint64, payload []byte) string {
 		}
 	}
 	// collect what the handler writes; stop early once the echo came back under the ingress key
-	opened := func(p []byte) []byte {
-		if in == nil || in.key == nil || len(p) < crypto.EncryptionOverhead {
+	openWith := func(key [32]byte, p []byte) []byte {
+		if len(p) < crypto.EncryptionOverhead {
 			return nil
 		}
-		aead, err := chacha20poly1305.New(in.raw[:])
+		aead, err := chacha20poly1305.New(key[:])
 		if err != nil {
 			return nil
 		}
@@ -360,16 +368,44 @@ func (s *c04hState) ping(stream uint64, payload []byte) string {
 		}
 		return pt
 	}
+	// under the key of the CURRENT handshake (agreement)
+	opened := func(p []byte) []byte {
+		if in == nil || in.key == nil {
+			return nil
+		}
+		return openWith(in.raw, p)
+	}
+	// under the key of this or an earlier handshake of the stream (late frames of a replaced handshake)
+	authentic := func(p []byte) bool {
+		if in == nil {
+			return false
+		}
+		for _, k := range in.held {
+			if openWith(k, p) != nil {
+				return true
+			}
+		}
+		return false
+	}
 	gotEcho := func() bool {
 		var all []byte
 		for _, p := range s.w.data[stream][n0:] {
 			if pt := opened(p); pt != nil {
+				if s.kind == "shell" {
+					if typ, body, err := shell.DecodeMessage(pt); err == nil && typ == shell.MsgStdout {
+						all = append(all, body...)
+					}
+					continue
+				}
 				all = append(all, pt...)
 			}
 		}
 		return len(marker) > 0 && bytes.Contains(all, marker)
 	}
-	wait := 600 * time.Millisecond
+	wait := 3 * time.Second // only spent when no echo comes back
+	if faulty {
+		wait = 900 * time.Millisecond
+	}
 	got := s.waitFor(wait, gotEcho)
 	if faulty && !got {
 		time.Sleep(450 * time.Millisecond) // leave room for a retry path to show itself
@@ -381,7 +417,7 @@ func (s *c04hState) ping(stream uint64, payload []byte) string {
 		if len(marker) >= 8 && bytes.Contains(p, marker) {
 			leak++
 		}
-		if len(p) > 0 && opened(p) == nil {
+		if len(p) > 0 && !authentic(p) {
 			unauth++
 		}
 	}
@@ -404,7 +440,7 @@ func (s *c04hState) close(stream uint64) string {
 		s.shellH.HandleStreamClose(stream)
 	}
 	if in := s.ing[stream]; in != nil {
-		in.key = nil
+		in.closed = true // late frames of this handshake still have to authenticate under its key
 	}
 	return "ok"
 }
@@ -440,8 +476,21 @@ func c04hRun(f []string) string {
 // c04hGen writes handler-level cases: multi-step handshakes (duplicate open with the same / a fresh
 // ingress key, re-open after close, the same request id on another stream) and write-fault cases.
 func c04hGen(w interface{ WriteString(string) (int, error) }, r *rng, nPerKind int, faults bool) {
-	pl := func() string { return hex.EncodeToString(r.bytes(r.pick(16, 32, 200, 1000))) }
+	kindNow := ""
+	pl := func() string {
+		if kindNow == "shell" {
+			return hex.EncodeToString(r.bytes(r.pick(16, 32, 100)))
+		}
+		return hex.EncodeToString(r.bytes(r.pick(16, 32, 200, 1000)))
+	}
 	for _, kind := range []string{"udp", "tcp", "fwd", "shell"} {
+		kindNow = kind
+		if kind != "shell" {
+			// always: the scripted multi-step handshake (duplicate open with the same and with a fresh ingress
+			// key, close + re-open, the same request id on another stream), a ping after every step
+			fmt.Fprintf(w.(io.Writer), "reset\nhs new %s 0\nhs open 1 500 fresh\nhs ping 1 %s\nhs open 1 500 same\nhs ping 1 %s\nhs open 1 500 fresh\nhs ping 1 %s\n"+
+				"hs close 1\nhs open 1 501 fresh\nhs ping 1 %s\nhs open 3 501 fresh\nhs ping 3 %s\nhs ping 1 %s\n", kind, pl(), pl(), pl(), pl(), pl(), pl())
+		}
 		for c := 0; c < nPerKind; c++ {
 			fmt.Fprintf(w.(io.Writer), "reset\nhs new %s 0\n", kind)
 			req := uint64(1000 + r.intn(1<<20))
@@ -455,6 +504,17 @@ func c04hGen(w interface{ WriteString(string) (int, error) }, r *rng, nPerKind i
 					next += 2
 					fmt.Fprintf(w.(io.Writer), "hs open %d %d fresh\nhs ping %d %s\n", sid, req, sid, pl())
 					req++
+					live = append(live, sid)
+				case kind == "shell": // a shell stream runs one command: only fresh streams (old sessions tear down asynchronously)
+					sid := next
+					next += 2
+					rq := req
+					if r.chance(30) {
+						rq = req - 1 // the same request id on another stream
+					} else {
+						req++
+					}
+					fmt.Fprintf(w.(io.Writer), "hs open %d %d fresh\nhs ping %d %s\n", sid, rq, sid, pl())
 					live = append(live, sid)
 				case d < 5: // duplicate open for a live stream: same request id; same or fresh ingress key
 					sid := live[r.intn(len(live))]
